@@ -95,6 +95,17 @@ Proof. exact side_row_stable. Qed.
 Check C08_side_row_stable.
 Print Assumptions C08_side_row_stable.
 
+(** the message part for EVERY event, crashes included *)
+Theorem C08_mailbox_messages_stable_all : ltac:(let t := type of mailbox_messages_stable_all in exact t).
+Proof. exact mailbox_messages_stable_all. Qed.
+Check C08_mailbox_messages_stable_all.
+Print Assumptions C08_mailbox_messages_stable_all.
+
+Theorem C08_keeper_stable : ltac:(let t := type of keeper_stable in exact t).
+Proof. exact keeper_stable. Qed.
+Print Assumptions C08_keeper_stable.
+
+
 (** the two causes really remove it (the disjunction is exact) *)
 Theorem C08_expired_removes : ltac:(let t := type of expired_removes in exact t).
 Proof. exact expired_removes. Qed.
